@@ -45,6 +45,9 @@ class LoopState(object):
         self.user_invariants = None  # callable(env, entry) -> list[(label, cond)]
         self.user_havoc = None  # callable(env, entry, loop) -> dict of replacements
         self.user_define = {}  # name -> callable(havocked_so_far, entry, loop) -> value: the invariant *defines* the name
+        # role_classifier(entry, bound_carried_names) -> {name: role}: user_define may then be keyed by "role:<role>", so that a
+        # contract does not depend on what the code calls its loop-carried variables
+        self.role_classifier = None
         self.required_names = ()
         self.split_first = False  # fork the arbitrary iteration into {first iteration from the entry state, later one}
         self.iterations_seen = 0
@@ -239,6 +242,9 @@ class Loop(object):
         if jd0 not in st.entry_joint:
             st.entry_joint.append(jd0)
         self._havocked = {}
+        self.roles = {}
+        if st.role_classifier is not None:
+            self.roles = dict(st.role_classifier(self.entry, bound))
         self._first = False
         self._target = None
         self._entry_checked = False
@@ -299,6 +305,7 @@ class Loop(object):
                 e["__i"] = SInt(z3.If(it.hi_e >= it.lo_e, it.hi_e, it.lo_e))
         e["__phase"] = phase
         e["__loop"] = self
+        e["__by_role"] = {r: n for n, r in self.roles.items()}
         e["__head"] = getattr(self, "head", None)
         e["__first"] = self._first
         return e
@@ -339,8 +346,9 @@ class Loop(object):
             if name in st.mutated:
                 v = _snapshot(v, self.lid, name, st)
         else:
-            if not self._first and name in st.user_define:
-                v = st.user_define[name](dict(self._havocked), self.entry, self)
+            dkey = name if name in st.user_define else "role:%s" % self.roles.get(name)
+            if not self._first and dkey in st.user_define:
+                v = st.user_define[dkey](dict(self._havocked), self.entry, self)
                 self._havocked[name] = v
                 return v
             d = None
@@ -503,6 +511,9 @@ class SymRange(object):
         self.lo_e = lo.e if isinstance(lo, SInt) else z3.IntVal(lo)
         self.hi_e = hi.e if isinstance(hi, SInt) else z3.IntVal(hi)
 
+    def __iter__(self):
+        raise OutOfSubset("iteration over a range of symbolic length outside a cut loop")
+
 
 class SymZip(object):
     """zip(...) over sequences of the same symbolic length (tensors along their first axis)"""
@@ -550,6 +561,7 @@ def loop_begin(lid, env):
         if sv is None:
             sv = LoopState(lid, st.carried)
             sv.user_invariants, sv.user_havoc, sv.user_define = st.user_invariants, st.user_havoc, st.user_define
+            sv.role_classifier = st.role_classifier
             sv.split_first, sv.peel_last, sv.mutated = st.split_first, st.peel_last, st.mutated
             REGISTRY[key] = sv
         st = sv
@@ -697,7 +709,7 @@ class _ListLifter(ast.NodeTransformer):
         if isinstance(node.value, ast.List) and (self.names is None or tname in self.names):
             node.value = ast.Call(func=ast.Name(id="__pv_list", ctx=ast.Load()), args=[node.value], keywords=[])
             self.lifted.append(tname)
-        elif self.names is not None and tname in self.names:
+        elif self.names is not None and (tname in self.names or "*none-lists*" in self.names):
             # `[None for _ in range(E)]` anywhere in the assigned expression -> `__pv_nonelist(E)`: a list of E slots that
             # all hold None (E may be symbolic); nothing else is changed
             lifter = _NoneListLifter()
